@@ -1509,7 +1509,7 @@ func (e *Engine) chanDeclFor(v ssa.Value) *ChanDecl {
 	}
 	name := st.Field(fa.Field).Name()
 	for _, d := range e.chanDecls {
-		if d.Field != name {
+		if d.Field != name || d.E == nil {
 			continue
 		}
 		if t := e.lookupType(d.Pkg, d.Type); t != nil && types.Identical(t, ot) {
@@ -1527,6 +1527,64 @@ func (e *Engine) chanAliasObligations() []*Obligation {
 	for _, d := range e.chanDecls {
 		ot := e.lookupType(d.Pkg, d.Type)
 		if ot == nil {
+			continue
+		}
+		if d.E == nil {
+			// `closed by`: every close(x.f) in the repository is in one of the named functions
+			var bad []string
+			for fn := range e.allFuncs {
+				if !e.inRepo(fn) || strings.HasSuffix(e.prog.Fset.Position(fn.Pos()).Filename, "_test.go") {
+					continue
+				}
+				for _, b := range fn.Blocks {
+					for _, ins := range b.Instrs {
+						var cc *ssa.CallCommon
+						switch x := ins.(type) {
+						case *ssa.Call:
+							cc = &x.Call
+						case *ssa.Defer:
+							cc = &x.Call
+						case *ssa.Go:
+							cc = &x.Call
+						}
+						if cc == nil {
+							continue
+						}
+						bi, ok := cc.Value.(*ssa.Builtin)
+						if !ok || bi.Name() != "close" || len(cc.Args) != 1 {
+							continue
+						}
+						un, ok := cc.Args[0].(*ssa.UnOp)
+						if !ok || un.Op != token.MUL {
+							continue
+						}
+						fa, ok := un.X.(*ssa.FieldAddr)
+						if !ok {
+							continue
+						}
+						st, ok := fa.X.Type().Underlying().(*types.Pointer).Elem().Underlying().(*types.Struct)
+						if !ok || !types.Identical(fa.X.Type().Underlying().(*types.Pointer).Elem(), ot) || st.Field(fa.Field).Name() != d.Field {
+							continue
+						}
+						allowed := false
+						for _, c := range d.Closers {
+							if fn.Name() == c || relName(fn) == c {
+								allowed = true
+							}
+						}
+						if !allowed {
+							bad = append(bad, relName(fn)+" at "+e.prog.Fset.Position(ins.Pos()).String())
+						}
+					}
+				}
+			}
+			sort.Strings(bad)
+			o := &Obligation{Name: shortPkg(d.Pkg) + "/channel." + d.Type + "." + d.Field + ".closed-only-by", Kind: "channel-closer", Func: shortPkg(d.Pkg), Goal: "true", PC: "true", Structural: true, StructOK: len(bad) == 0, Props: d.Props,
+				Desc: "the channel held in " + d.Type + "." + d.Field + " is closed (through the field) only in " + strings.Join(d.Closers, ", ")}
+			if len(bad) > 0 {
+				o.Note = "closed elsewhere: " + strings.Join(bad, "; ")
+			}
+			out = append(out, o)
 			continue
 		}
 		st, ok := ot.Underlying().(*types.Struct)
